@@ -7,6 +7,8 @@ system calls `FileStorage.StoreSession` was *observed* to issue (harness/c31, st
 by the decidable shape check `isAtomicReplace`.
 -/
 import TdModel.Lemmas.C31
+import TdModel.Lemmas.C31Disc
+import TdModel.Lemmas.C31Err
 
 namespace TdModel.C31
 open TdModel
@@ -58,7 +60,8 @@ name and chunking of the data. -/
 theorem store_session_is_atomic_replace (fd dfd : Nat) (tmp path : String) (chunks : List Bytes)
     (hne : tmp ≠ path) :
     isAtomicReplace (implTrace fd dfd tmp path chunks) path chunks.flatten = true := by
-  simp only [implTrace, Facts.C31.storeOps, interp, String.reduceEq, ↓reduceIte]
+  simp only [implTrace, Facts.C31.storeOps, interp, String.reduceEq, ↓reduceIte, List.cons_append,
+    List.nil_append, List.append_nil]
   exact isAtomicReplace_atomicTrace fd tmp path false chunks _ hne (by simp [Op.harmless])
 
 /-- …and it also makes the rename durable before returning (the best-effort directory fsync is
@@ -68,7 +71,8 @@ theorem store_session_is_durable_replace (fd dfd : Nat) (tmp path : String) (chu
     isDurableReplace (implTrace fd dfd tmp path chunks) path chunks.flatten = true := by
   have h := store_session_is_atomic_replace fd dfd tmp path chunks hne
   simp only [isDurableReplace, h, Bool.true_and]
-  simp only [implTrace, Facts.C31.storeOps, interp, String.reduceEq, ↓reduceIte]
+  simp only [implTrace, Facts.C31.storeOps, interp, String.reduceEq, ↓reduceIte, List.cons_append,
+    List.nil_append, List.append_nil]
   exact (tailOf_atomicTrace fd tmp path false chunks _).symm ▸ (by simp [tailDirSync, Op.harmless])
 
 /-- Any number of saves in a row (each an atomic replacement followed by the directory fsync, each
@@ -88,6 +92,60 @@ theorem durable_replace_leaves_quiescent (tr : List Op) (path : String) (new : B
     (h : isDurableReplace tr path new = true) :
     Quiescent (run tr s0) path ∧ readCur (run tr s0) path = some new :=
   (durable_save hq hfresh h).2
+
+/-- The publication discipline, for ANY trace — any number of writers and descriptors, failed calls
+(dropped), cleanup, any number of saves: if, call by call, the session file itself is never opened,
+unlinked or renamed away, nothing is written to an inode `path` is or may after a power loss be
+bound to, and whatever is renamed onto `path` is fully fsynced at that moment (`disciplined`,
+decidable, evaluated by the driver on every observed trace), then at every crash point — every
+system-call boundary, every cut of every write, un-fsynced data and directory changes lost in any
+combination — `path` holds its initial content or one of the `published` contents, complete. -/
+theorem publication_discipline_safe (tr : List Op) (path : String) (s0 : FS)
+    (hq : Quiescent s0 path) (hwf : WellFormed s0) (hd : disciplined path s0 tr = true) :
+    ∀ s ∈ crashStates tr s0, ∀ r ∈ plReads s path,
+      r = readCur s0 path ∨ ∃ c ∈ published path s0 tr, r = some c := by
+  intro s hs r hr
+  have h := (disc_crash path (readCur s0 path) tr s0 [] (dinv_of_quiescent hq hwf) hd).1 s hs
+  simpa using h.plReads r hr
+
+/-- Failing system calls: if the `k`-th file-system call of an atomic replacement (at or before the
+rename) fails and the deferred cleanup closes (when still open) and removes the temporary file, then
+every crash state of the aborted save reads the previous content, the temporary file is gone at the
+end and `path` still reads the previous content. -/
+theorem atomic_replace_safe_with_errors (s0 : FS) (fd : Nat) (tmp path : String) (trunc : Bool)
+    (chunks : List Bytes) (tail : List Op) (k : Nat) (stillOpen : Bool)
+    (hq : Quiescent s0 path) (hwf : WellFormed s0) (hfresh : s0.dir tmp = none) (hne : tmp ≠ path)
+    (hk1 : 1 ≤ k) (hk2 : k ≤ chunks.length + 3) :
+    (∀ s ∈ crashStates (abortTrace fd tmp (atomicTrace fd tmp path trunc chunks tail) k stillOpen) s0,
+        ∀ r ∈ plReads s path, r = readCur s0 path) ∧
+      (run (abortTrace fd tmp (atomicTrace fd tmp path trunc chunks tail) k stillOpen) s0).dir tmp = none ∧
+      readCur (run (abortTrace fd tmp (atomicTrace fd tmp path trunc chunks tail) k stillOpen) s0) path =
+        readCur s0 path :=
+  abort_safe k stillOpen hq hwf hfresh hne hk1 hk2
+
+/-- …and that is what `StoreSession` does on failure: its call list and its deferred cleanup
+(`Facts.C31.storeOps`, `Facts.C31.storeCleanup`, regenerated from the source) form such an aborted
+trace for every failing position at or before the rename. -/
+theorem store_session_abort_is_safe (s0 : FS) (fd dfd : Nat) (tmp path : String) (chunks : List Bytes)
+    (k : Nat) (stillOpen : Bool) (hq : Quiescent s0 path) (hwf : WellFormed s0)
+    (hfresh : s0.dir tmp = none) (hne : tmp ≠ path) (hk1 : 1 ≤ k) (hk2 : k ≤ chunks.length + 3) :
+    (∀ s ∈ crashStates (implAbortBefore fd dfd tmp path chunks k stillOpen) s0,
+        ∀ r ∈ plReads s path, r = readCur s0 path) ∧
+      (run (implAbortBefore fd dfd tmp path chunks k stillOpen) s0).dir tmp = none := by
+  have htr : implAbortBefore fd dfd tmp path chunks k stillOpen =
+      abortTrace fd tmp (atomicTrace fd tmp path false chunks [.openDir dfd, .fsync dfd, .close dfd]) k stillOpen := by
+    simp only [implAbortBefore, implTrace, Facts.C31.storeOps, Facts.C31.storeCleanup, interp, cleanupOps,
+      String.reduceEq, ↓reduceIte, abortTrace, atomicTrace, List.append_nil, List.append_assoc, List.cons_append,
+      List.nil_append]
+  rw [htr]
+  have h := abort_safe (trunc := false) (chunks := chunks) (tail := [.openDir dfd, .fsync dfd, .close dfd])
+    (fd := fd) k stillOpen hq hwf hfresh hne hk1 hk2
+  exact ⟨h.1, h.2.1⟩
+
+/-- `StoreSession` holds the storage's mutex for the whole call (regenerated fact): concurrent
+calls on one `FileStorage` are a sequence of saves, covered by `repeated_saves_safe` and by
+`publication_discipline_safe`. -/
+theorem store_session_is_locked : Facts.C31.storeLocked = true := by decide
 
 /-- The pinned tree's `os.WriteFile` (open `O_TRUNC`, write, close) is *not* crash-atomic: for
 every non-empty previous and new session there is a crash point (right after the truncating
@@ -136,6 +194,26 @@ example : SavesOK "s" (initFS [("s", [7])])
   refine ⟨by decide, ?_, by decide, ?_, trivial⟩
   · intro t ht; cases ht; decide
   · intro t ht; cases ht; decide
+
+/-- A directory built from a listing is well-formed. -/
+theorem initFS_is_wellFormed (ents : List (String × Bytes)) : WellFormed (initFS ents) :=
+  initFS_wellFormed ents
+
+/-- Non-vacuity of the discipline: the canonical trace is disciplined and publishes exactly the new
+content; remove-before-rename, rename-before-fsync and writing in place are not. -/
+example : disciplined "s" (initFS [("s", [7])])
+    [.openF 5 "t" true true false false, .write 5 [1, 2], .fsync 5, .close 5, .rename "t" "s"] = true ∧
+  published "s" (initFS [("s", [7])])
+    [.openF 5 "t" true true false false, .write 5 [1, 2], .fsync 5, .close 5, .rename "t" "s"] = [[1, 2]] := by decide
+example : disciplined "s" (initFS [("s", [7])])
+    [.openF 5 "t" true true false false, .write 5 [1], .fsync 5, .close 5, .unlink "s", .rename "t" "s"] = false := by decide
+example : disciplined "s" (initFS [("s", [7])])
+    [.openF 5 "t" true true false false, .write 5 [1], .rename "t" "s", .fsync 5, .close 5] = false := by decide
+example : disciplined "s" (initFS [("s", [7])]) (truncWriteTrace 5 "s" [[1]]) = false := by decide
+/-- two writers interleaved, each disciplined: both contents are published -/
+example : disciplined "s" (initFS [("s", [7])])
+    [.openF 5 "t" true true false false, .openF 6 "u" true true false false, .write 6 [2], .write 5 [1], .fsync 5,
+      .fsync 6, .close 6, .rename "u" "s", .close 5, .rename "t" "s"] = true := by decide
 
 example : readCur (initFS [("other", [9]), ("s", [7, 7])]) "s" = some [7, 7] := by decide
 
